@@ -9,7 +9,8 @@ CONSTANTS MaxLines,              \* maximal number of lines of an authorized-key
 
 \* ---- authorized keys: a file is a sequence of line kinds
 KeyKinds == {"A", "B", "Aopt"}                      \* key A, key B, key A preceded by an options field
-LineKinds == KeyKinds \cup {"cmt", "blank", "junk"} \* comment, blank line, text that is no key
+LineKinds == KeyKinds \cup {"cmt", "blank", "junk"} \* comment (possibly a commented-out key: the text of key A or C behind '#'),
+                                                    \* blank line, text that is no key; the options field of a B entry may quote key C's text
 KeyOf(k) == IF k = "B" THEN "B" ELSE "A"
 Files == UNION {[1..n -> LineKinds] : n \in 0..MaxLines}
 Offered == {"A", "B", "C"}                          \* C is listed nowhere
